@@ -24,6 +24,7 @@ type Program struct {
 	funcs map[string]*ssa.Function // "val.Int8.Compare", "val.toInt8", closures "node.editor.enter$1"
 	// all named (non-interface) types of library packages, for interface dispatch
 	concrete  []types.Type
+	globNonNil map[*ssa.Global]int // 0 unknown, 1 non-nil constant after init, 2 no
 	contracts map[string]*Contract // by function key
 	specs     *SpecEnv
 	loadSecs  float64
@@ -180,4 +181,67 @@ func (P *Program) methodOf(t types.Type, name string, pkg *types.Package) *ssa.F
 		}
 	}
 	return nil
+}
+
+// globalNonNil: the package-level variable is assigned exactly once, in the package initialiser, with a
+// value that cannot be nil (errors.New / fmt.Errorf / &T{} / a boxed value), and its address never escapes.
+func (P *Program) globalNonNil(gl *ssa.Global) bool {
+	if P.globNonNil == nil {
+		P.globNonNil = map[*ssa.Global]int{}
+	}
+	if v := P.globNonNil[gl]; v != 0 {
+		return v == 1
+	}
+	ok := false
+	stores := 0
+	bad := false
+	for fn := range ssautil.AllFunctions(P.prog) {
+		for _, b := range fn.Blocks {
+			for _, in := range b.Instrs {
+				for _, op := range in.Operands(nil) {
+					if *op != ssa.Value(gl) {
+						continue
+					}
+					switch x := in.(type) {
+					case *ssa.UnOp:
+						// load
+					case *ssa.Store:
+						if x.Addr != ssa.Value(gl) {
+							bad = true
+							continue
+						}
+						stores++
+						if fn.Name() != "init" || fn.Pkg != gl.Pkg {
+							bad = true
+							continue
+						}
+						switch v := x.Val.(type) {
+						case *ssa.Call:
+							if c := v.Common().StaticCallee(); c != nil {
+								n := stdName(c)
+								if n == "errors.New" || n == "fmt.Errorf" {
+									ok = true
+									continue
+								}
+							}
+							bad = true
+						case *ssa.MakeInterface, *ssa.Alloc:
+							ok = true
+						default:
+							bad = true
+						}
+					default:
+						bad = true
+					}
+				}
+			}
+		}
+	}
+	res := ok && !bad && stores == 1
+	if res {
+		P.globNonNil[gl] = 1
+	} else {
+		P.globNonNil[gl] = 2
+	}
+	return res
 }
